@@ -1,6 +1,7 @@
 import AnySyncModel.Core.Wire
 import AnySyncModel.Tree.Model
 import AnySyncModel.Tree.Loader
+import AnySyncModel.Tree.ObjectTree
 /-! line protocol for area `tree` (C06, C09); every op is self-contained (stateless)
 
   change  = `id/p1,p2/snap/s`   (`-` for no prevs; `s` = 1 for a snapshot; id 0 is never a change)
@@ -10,6 +11,10 @@ import AnySyncModel.Tree.Loader
   add <root> <lastIter> | <change>… | <change>… | <awaited:waiting>… → `ok <mode> added=<ids sorted> iter=<ids> heads=<ids sorted> last=<id>`
                                                    (attached changes in any order, root first; then the batch, in order)
   reduce <root> <possibleRoots> <change>…       → `ok <root> <ids>`
+  addraw <root> <ourPath ids> <theirPath ids> | <change>… | <change>… | <change>…   (attached, batch, stored sequence)
+                                                → `ok nothing|plain|rebuilt|nocommon added=<ids sorted>`
+  rebuild <rootId> <change>…                    → `ok <root> <ids> heads=<ids sorted> last=<id>` | `err empty`
+                                                   (the whole stored sequence in stored order; build from <rootId> on)
   store <ids> <ids>                             → `ok <ids>`          (stored sequence, iteration)
   common <ids> <ids>                            → `ok <id>` | `err nocommon`
   respond <max> <ids> <schange>…                → `ok <ids>;<heads sorted> <ids>;<heads sorted> …` | `ok -`
@@ -77,6 +82,26 @@ def step (line : String) : String :=
       | some r' => s!"ok {r'} {showNats (iter r' res.1.att)}"
       | none => "bad-op"
     | _, _, _ => "bad-op"
+  | "rebuild" :: root :: rest =>
+    match root.toNat?, rest.mapM parseChange with
+    | some r, some stored =>
+      let t := buildFromStorage stored r
+      match t.root with
+      | some r' =>
+        let it := iter r' t.att
+        s!"ok {r'} {showNats it} heads={showNats (sortIds (headsOf t.att it))} last={t.lastIter}"
+      | none => "err empty"
+    | _, _ => "bad-op"
+  | "addraw" :: root :: ours :: theirs :: rest =>
+    match root.toNat?, natList? ours, natList? theirs, sections rest with
+    | some r, some o, some th, [[], attS, batchS, storedS] =>
+      match attS.mapM parseChange, batchS.mapM parseChange, storedS.mapM parseChange with
+      | some att, some batch, some stored =>
+        let t0 : T := { root := some r, att := att, lastIter := r }
+        let res := addRaw stored o th t0 batch
+        s!"ok {res.kind} added={showNats (sortIds res.added)}"
+      | _, _, _ => "bad-op"
+    | _, _, _, _ => "bad-op"
   | ["store", st, it] =>
     match natList? st, natList? it with
     | some s, some i => s!"ok {showNats (storeInsert s i)}"
